@@ -908,6 +908,38 @@ def gen_keepall_case(rng):
     return case
 
 
+def gen_bare_clade_case(rng):
+    """model faithfulness for the one-pass forms (wave 12): an internal node ALL of whose children are taxon-less
+    leaves, so that prune_leaves_without_taxa(recursive=False) / filter_leaf_nodes(recursive=False) empty it in the
+    first pass and must leave it standing (recursive=True removes it in the second pass).  Outside the property's
+    domain (bare leaves): the oracle makes no claim, the comparison is model vs. implementation."""
+    nl = rng.choice([3, 4, 5, 6, 8])
+    lengths = rng.choice(["dyadic", "positive", "mixed", "none"])
+    spec = trees.gen_tree(rng, nl, lengths=lengths, unifurcations=0.0, internal_labels=0.0)
+    cands = [n for n in trees.preorder(spec) if n["kids"] and n is not spec and all(not k["kids"] for k in n["kids"])]
+    if not cands:
+        cands = [n for n in trees.preorder(spec) if n["kids"] and all(not k["kids"] for k in n["kids"])]
+    bare = []
+    if cands:
+        x = rng.choice(cands)
+        for k in x["kids"]:
+            k["taxon"] = None
+            bare.append(k["id"])
+    ntax = nl
+    tl = [2 * k for k in range(ntax)]
+    nsorder = list(range(ntax))
+    case = {"tree": spec, "rooted": rng.choice([True, False, None, True]), "tlabels": tl, "ns": nsorder,
+            "cs": False, "ops": [], "tags": [], "coq": []}
+    allids = [n["id"] for n in trees.preorder(spec)]
+    for rec in (False, True):
+        upd = rng.random() < 0.3
+        sup = rng.random() < 0.5
+        case["ops"].append(["PruneNoTaxa", rec, upd, sup]); case["tags"].append(None); case["coq"].append(True)
+        case["ops"].append(["FilterLeaves", [i for i in allids if i not in bare], rec, upd, sup])
+        case["tags"].append(None); case["coq"].append(True)
+    return case
+
+
 def gen_case(rng, big=False):
     r = rng.random()
     if big:
@@ -1224,12 +1256,14 @@ def run(tier, seed, replay=None):
         small = list(exhaustive_cases(rng, 4, 3))
         cases += [c for c in small if len(trees.leaves(c["tree"])) <= 3 or rng.random() < 0.4]
         cases += [gen_keepall_case(rng) for _ in range(QUICK_KEEPALL)]
+        cases += [gen_bare_clade_case(rng) for _ in range(12)]
         cases += list(exhaustive_unif_cases(rng, 3, 2, 3, others=0.15))
         cases += list(exhaustive_pre_cases(rng, 4, 4, others=0.15))
     else:
         cases = [gen_case(rng) for _ in range(3000)] + [gen_case(rng, big=True) for _ in range(150)]
         cases += list(exhaustive_cases(rng, 5, 5))
         cases += [gen_keepall_case(rng) for _ in range(400)]
+        cases += [gen_bare_clade_case(rng) for _ in range(150)]
         cases += list(exhaustive_unif_cases(rng, 4, 2, 3, coq_sample=0.2))
         cases += list(exhaustive_pre_cases(rng, 5, 4))
         big = [c for c in exhaustive_cases(rng, 7, 0, coq_sample=0.02) if len(trees.leaves(c["tree"])) >= 6]
